@@ -24,6 +24,11 @@ class RayGenerator:
         Returns:
             RealRays: RealRays object containing the generated rays.
         """
+        # pupil coordinates given as Python ints or integer arrays would make
+        # np.full_like below truncate positions to whole numbers
+        Px = np.asarray(Px, dtype=float)
+        Py = np.asarray(Py, dtype=float)
+
         vx, vy = 1 - np.array(self.optic.fields.get_vig_factor(Hx, Hy))
         x0, y0, z0 = self._get_ray_origins(Hx, Hy, Px, Py, vx, vy)
 
